@@ -55,8 +55,18 @@ def run(ctx):
     nontest = [b for b in ctx.all_bodies(core) if not scan.is_test_body(b)]
     mac = [b for c in ctx.crates("darling_macro") if not c["test"] for b in ctx.all_bodies(c)]
     for callee in ("darling_core::ast::data::Data::<V, F>::empty_from", "darling_core::util::ident_string::IdentString::map"):
-        callers = [b.key for b in nontest + mac for _ in ctx.find_calls(b, "^" + re.escape(callee) + "$")]
-        ctx.ob("C07.who.no-caller", callee, "callers outside tests", not callers, "documented panicking API called from %s" % callers)
+        callers = []
+        for b in nontest + mac:
+            for blk, t_ in ctx.find_calls(b, "^" + re.escape(callee) + "$"):
+                # a call that can only be reached with an input the callee accepts is not a panic path:
+                # empty_from panics on a union only
+                if callee.endswith("::empty_from"):
+                    arg = ctx.expr(b, t_["args"][0])
+                    pcs = ctx.pc_strs(b, blk)
+                    if pcs and all(ctx._sat(d, ("ne", "^discr\\(%s\\)$" % re.escape(arg), "Union")) for d in pcs):
+                        continue
+                callers.append(b.key)
+        ctx.ob("C07.who.no-caller", callee, "callers outside tests", not callers, "documented panicking API called (without excluding the panicking input) from %s" % callers)
     makers = [b.key for b in nontest if not b.derived and ctx.find_aggregates(b, r"^darling_core::error::kind::ErrorKind$", "__NonExhaustive")]
     ctx.ob("C07.who.nonexhaustive-never-built", "darling_core::error::kind::ErrorKind::__NonExhaustive", "constructors", not makers, "constructed in %s" % makers)
     # ErrorKind::Multiple is built only by Error::multiple (len >= 2) and the count-preserving map in add_sibling_alts
